@@ -324,7 +324,18 @@ def r2(ctx, ci):
     guards = [nn for nn, s_ in gb.stmt.items() if gb.kind[nn] == "if" and
               "demoted" in norm(s_.test)]
     if len(guards) == 1 and fill:
-        p = gb.path_avoiding(guards[0], EXIT, fill, first_label="T")
+        # which branch of the guard is taken when the cache is EMPTY?
+        t = norm(gb.stmt[guards[0]].test).replace(" ", "")
+        empty_true = t in ("len(self.demoted)==0", "len(self.demoted)<1",
+                           "notself.demoted", "notlen(self.demoted)",
+                           "self.demoted==set()")
+        empty_false = t in ("len(self.demoted)>0", "len(self.demoted)!=0",
+                            "len(self.demoted)>=1", "self.demoted",
+                            "len(self.demoted)")
+        if not (empty_true or empty_false):
+            raise AnalysisError("C08-R2: cache guard `%s` not recognised" % t)
+        p = gb.path_avoiding(guards[0], EXIT, fill,
+                             first_label="T" if empty_true else "F")
         ctx.check("C08-R2", bfi, "cache filled whenever it was found empty",
                   p is None, "a path from the 'cache is empty' branch "
                   "reaches the return without assigning self.demoted (e.g. "
@@ -486,14 +497,36 @@ def r3(ctx, ci):
         # equal-depth guard: an If whose test compares self.maxdepth with
         # other.maxdepth and whose failing branch raises, dominating the op
         guard_ok = False
+
+        def raising_depth_guard(stmts):
+            for st in stmts:
+                for x in ast.walk(st):
+                    if isinstance(x, ast.If) and \
+                            {"self.maxdepth", "other.maxdepth"} <= \
+                            {norm(a) for a in ast.walk(x.test)
+                             if isinstance(a, ast.Attribute)} and any(
+                                isinstance(r, ast.Raise)
+                                for b in (x.body, x.orelse) for y in b
+                                for r in ast.walk(y)):
+                        return True
+            return False
         for n, s in g.stmt.items():
-            if g.kind[n] == "if" and {"self.maxdepth", "other.maxdepth"} <= \
-                    {norm(x) for x in ast.walk(s.test)
-                     if isinstance(x, ast.Attribute)}:
-                if any(isinstance(x, ast.Raise) for b in (s.body, s.orelse)
-                       for st in b for x in ast.walk(st)) and opn and \
-                        g.dominates(n, opn[0]):
-                    guard_ok = True
+            if g.kind[n] == "if" and raising_depth_guard([s]) and opn and \
+                    g.dominates(n, opn[0]):
+                guard_ok = True
+            # the guard may live in a helper method called with `other`
+            if g.kind[n] == "stmt" and opn and g.dominates(n, opn[0]):
+                for c in ast.walk(s):
+                    if isinstance(c, ast.Call) and \
+                            isinstance(c.func, ast.Attribute) and \
+                            isinstance(c.func.value, ast.Name) and \
+                            c.func.value.id == "self" and \
+                            c.func.attr in ci.methods and \
+                            any(norm(a) == "other" for a in c.args):
+                        h = ci.methods[c.func.attr]
+                        if h.params[1:2] == ["other"] and \
+                                raising_depth_guard(h.node.body):
+                            guard_ok = True
         ctx.check("C08-R3", fi, "equal-depth guard in %s" % m, guard_ok,
                   "no raising guard comparing self.maxdepth with "
                   "other.maxdepth dominates the set operation: operands of "
@@ -665,10 +698,25 @@ def r4(ctx, ci):
         # guard: p % 4 == 0 and membership of p+1..p+3
         guards = []
         for iff in walk_no_nested(fi.node):
-            if isinstance(iff, ast.If) and any(x is a[0]
-                                               for x in ast.walk(iff)):
-                guards.append(iff.test)
-        gtxt = " && ".join(norm(g) for g in guards).replace(" ", "")
+            if isinstance(iff, ast.If) and any(
+                    x is a[0] for st in iff.body for x in ast.walk(st)):
+                guards.append(norm(iff.test).replace(" ", ""))
+        # `if C: continue` earlier in the same loop body contributes not-C
+        for lp in walk_no_nested(fi.node):
+            if isinstance(lp, ast.For) and any(
+                    x is a[0] for x in ast.walk(lp)):
+                for st in lp.body:
+                    if any(x is a[0] for x in ast.walk(st)):
+                        break
+                    if isinstance(st, ast.If) and len(st.body) == 1 and \
+                            isinstance(st.body[0], ast.Continue) and \
+                            not st.orelse:
+                        t = norm(st.test).replace(" ", "")
+                        neg = {"%s%%4!=0" % sym: "%s%%4==0" % sym,
+                               "not%s%%4==0" % sym: "%s%%4==0" % sym,
+                               "%s%%4" % sym: "%s%%4==0" % sym}.get(t)
+                        guards.append(neg or "not(%s)" % t)
+        gtxt = "&&".join(guards)
         ok_g = ("%s%%4==0" % sym) in gtxt and all(
             ("%s+%d" % (sym, k)) in gtxt for k in (1, 2, 3))
         ctx.check("C08-R4", fi, "promotion guard", ok_g,
